@@ -135,9 +135,16 @@ def make_graph(rows, refs):
                         "ReferenceType": pd.Series([r[2] for r in refs], dtype="int64")})
     return UAGraph(nodes=vlib.relabel(nodes, 1), references=vlib.relabel(rdf, 2), namespaces=["http://opcfoundation.org/UA/", "urn:a", "urn:b"], models=[])
 
-def impl_tables(rows, refs):
+def impl_tables(rows, refs, renumber=None):
+    """renumber: an id -> id map applied IN PLACE to the tables of the graph object after a first normalisation (the caller re-numbers the graph it holds);
+    the tables reported are those computed afterwards"""
     try:
         g = make_graph(rows, refs)
+        if renumber is not None:
+            g.get_normalized_nodes_df(); g.get_normalized_references_df(); g.get_normalized_nodes_df("urn:a"); g.get_normalized_references_df("urn:b")
+            f_ = lambda v: v if pd.isna(v) else renumber.get(int(v), int(v))
+            for c in ["id"] + REF_COLS: g.nodes[c] = g.nodes[c].map(f_).astype(g.nodes[c].dtype)
+            for c in ("Src", "Trg", "ReferenceType"): g.references[c] = g.references[c].map(f_).astype(g.references[c].dtype)
         nn = g.get_normalized_nodes_df(); rr = g.get_normalized_references_df()
         cols = list(nn.columns)
         tn = [[enc_cell(r[c]) for c in NODE_COLS + REF_COLS] for _, r in nn.iterrows()]
@@ -170,7 +177,7 @@ def check(ctx):
     rng = ctx.rng
     ctx.rule = ("operators: all ordered pairs of a pool of ~170 UA values of every class (nulls, NaN objects, nested lists and structures) for < <= > >= and ==/hash, "
                 "all triples (thorough) or a random sample of triples (quick) for transitivity; tables: random node/reference tables built into a real UAGraph, each re-built "
-                "with permuted rows and renumbered ids, and compared cell by cell with the model's sorted table. Distinct by SHA-256; a pair is non-trivial when the two values "
+                "with permuted rows and renumbered ids (also re-numbered in place on the same graph object after a first normalisation), whole and per namespace, and compared cell by cell with the model's sorted table. Distinct by SHA-256; a pair is non-trivial when the two values "
                 "have the same class or one of them holds a null/NaN; a table when it has >= 3 rows and an id-valued column.")
     ctx.trusted = ["hand-written Gallina model coq/M_C14.v: lt/le/gt/ge as functions of (class name, str(astuple(value))), which the harness reads off the Python objects; "
                    "dataclass __eq__/__hash__ over the flattened fields (identity-or-== with bool(pd.NA) raising); sort_values modelled as insertion sort by the lexicographic row order, missing last",
@@ -284,6 +291,12 @@ def check(ctx):
             out2 = impl_tables(rows2, refs2)
             if out2 != out:
                 ctx.fail("C14/not-canonical", dict(kind="table", rows=repr(rows), refs=refs, perm=perm, newid=newid), "normalised tables differ after permutation/renumbering")
+            # the same re-numbering applied in place to the graph object after it has been normalised once
+            if variant == 0:
+                f77 = dict(f); f77.setdefault(77, 77)
+                out3 = impl_tables(rows, refs, renumber=f77)
+                if out3 != out:
+                    ctx.fail("C14/not-canonical", dict(kind="table", rows=repr(rows), refs=refs, perm=None, newid=newid, inplace=True), "normalised tables differ after the graph's ids were re-numbered in place")
     pick = sorted(rng.sample(range(len(reqs)), min(40 if ctx.quick() else 150, len(reqs))))
     ctx.crosscheck = vlib.coq_crosscheck([reqs[i] for i in pick], [ans[i] for i in pick], "c14")
 
